@@ -432,6 +432,21 @@ func runC02(c *ctx) {
 				c.rng.Read(h.Mask[:])
 				c02F(c, name, h, p, key)
 			}
+			// a frame whose Header.Length does not (yet) say len(Payload) - a Frame literal filled in later, a
+			// payload grown after NewFrame: the helpers mask the payload they are given, whatever the header says
+			if n > 0 {
+				for _, l := range []int64{0, 1, int64(n) - 1, int64(n) + 1, int64(n) / 2, 1 << 40} {
+					if l == int64(n) || l < 0 {
+						continue
+					}
+					h2 := ws.Header{Fin: true, OpCode: ws.OpBinary, Length: l}
+					if strings.HasPrefix(name, "Unmask") {
+						h2.Masked = true
+						h2.Mask = key
+					}
+					c02F(c, name, h2, p, key)
+				}
+			}
 		}
 	}
 }
